@@ -991,12 +991,25 @@ func usesRom(items []srcItem) bool {
 	return false
 }
 
-// byteExpr writes one byte of a data section. The notations say how wide the number is (one byte); one
-// expression in eighty is a plain or 0d/0u decimal, which the assembler stores as 8 cells (counted as excluded).
-func byteExpr(t *rapid.T, v uint64) string {
-	switch uni(t, 240, "bytenotation") % 61 {
-	case 60:
+func loadsImmediate(items []srcItem) bool {
+	for _, it := range items {
+		if it.Kind == kInstr && len(it.Args) == 2 && (it.Op == "rset" || (it.Op == "mov" && it.Args[1] != "" && it.Args[1][0] >= '0' && it.Args[1][0] <= '9')) {
+			return true
+		}
+	}
+	return false
+}
+
+// byteExpr writes one byte of a data section. The notations say how wide the number is (one byte); where
+// unsized is set (one source with data in forty) one expression in four is a plain or 0d/0u decimal, which the
+// assembler stores as 8 cells (counted as excluded).
+func byteExpr(t *rapid.T, v uint64, unsized bool) string {
+	if unsized && uni(t, 4, "unsizedbyte") == 0 {
 		return fmt.Sprintf("%s%d", rapid.SampledFrom([]string{"", "0d", "0u"}).Draw(t, "unsized"), v)
+	}
+	switch uni(t, 60, "bytenotation") {
+	case 0:
+		return fmt.Sprintf("0x%X", v)
 	case 1, 2, 3, 4, 5, 6, 7, 8:
 		return fmt.Sprintf("0b%b", v)
 	case 9, 10, 11, 12:
@@ -1018,6 +1031,7 @@ func genDatas(t *rapid.T, vars []dataVar) []*dataSrc {
 	pads := []string{"pad", "fill_0", "_gap", "Z9"}
 	n := 1 + uni(t, 3, "ndatas")
 	off := uni(t, len(names), "dataname")
+	unsized := uni(t, 40, "unsizedbytes") == 0
 	val := func() uint64 {
 		switch uni(t, 4, "byteclass") {
 		case 0:
@@ -1034,7 +1048,7 @@ func genDatas(t *rapid.T, vars []dataVar) []*dataSrc {
 			for _, l := range ds[0].Lines {
 				nl := dataLine{Name: l.Name}
 				for range l.Exprs {
-					nl.Exprs = append(nl.Exprs, byteExpr(t, val()))
+					nl.Exprs = append(nl.Exprs, byteExpr(t, val(), unsized))
 				}
 				d.Lines = append(d.Lines, nl)
 			}
@@ -1048,7 +1062,7 @@ func genDatas(t *rapid.T, vars []dataVar) []*dataSrc {
 				l := dataLine{Name: pads[np]}
 				np++
 				for k, nk := 0, 1+uni(t, 4, "padlen"); k < nk; k++ {
-					l.Exprs = append(l.Exprs, byteExpr(t, val()))
+					l.Exprs = append(l.Exprs, byteExpr(t, val(), unsized))
 				}
 				d.Lines = append(d.Lines, l)
 			}
@@ -1058,7 +1072,7 @@ func genDatas(t *rapid.T, vars []dataVar) []*dataSrc {
 				cells += 1 + uni(t, 2, "nextra")
 			}
 			for k := 0; k < cells; k++ {
-				l.Exprs = append(l.Exprs, byteExpr(t, val()))
+				l.Exprs = append(l.Exprs, byteExpr(t, val(), unsized))
 			}
 			d.Lines = append(d.Lines, l)
 		}
@@ -1090,11 +1104,11 @@ func genSource(o genOpts) func(t *rapid.T) Case {
 		dataMode, outerMode := false, false
 		if !o.Leak && o.Entry != 1 {
 			switch uni(t, 12, "family") {
-			case 5, 6, 7:
+			case 7, 8:
 				dataMode = true
-			case 8, 9:
+			case 9, 10:
 				outerMode = true
-			case 10, 11:
+			case 11:
 				dataMode, outerMode = true, true
 			}
 		}
@@ -1200,7 +1214,8 @@ func genSource(o genOpts) func(t *rapid.T) Case {
 			}
 			name := rapid.SampledFrom(free).Draw(t, "cpname")
 			cp := cpSrc{Name: name, Section: secs[si]}
-			if len(datas) > 0 && (usesRom(secs[si].Items) || uni(t, 2, "dataunused") == 0) {
+			// (data the text does not use: only where the text loads an immediate, so that the ROM word holds a byte)
+			if len(datas) > 0 && (usesRom(secs[si].Items) || (loadsImmediate(secs[si].Items) && uni(t, 2, "dataunused") == 0)) {
 				// CPs that run the same text mostly get data sections of their own
 				var fresh []*dataSrc
 				for _, d := range datas {
